@@ -4,8 +4,9 @@ package c07
 
 import (
 	"bytes"
-	"io"
 	"fmt"
+	"github.com/cloudflare/circl/kem/kyber/kyber768"
+	"io"
 	"math/big"
 	"sync"
 	"testing"
@@ -233,7 +234,7 @@ func TestVerifSuites(t *testing.T) {
 	lib.Mandatory("conformance", "conformance:base", "conformance:psk", "conformance:auth", "conformance:authpsk",
 		"seal-compared", "open-compared", "export-compared", "export-over-limit:panic",
 		"mismatch:skR", "mismatch:info", "mismatch:psk", "mismatch:psk_id", "mismatch:mode", "mismatch:pkS",
-		"mismatch:open-failed", "auth-unsupported", "imported-private-key", "random-setup-checked", "hybrid-x25519-half-checked")
+		"mismatch:open-failed", "auth-unsupported", "imported-private-key", "random-setup-checked", "hybrid-x25519-half-checked", "hybrid-kyber-half-checked")
 	var cells []cellID
 	for _, k := range kems {
 		for _, kdf := range kdfs {
@@ -481,6 +482,19 @@ func runCell(c cellID, ord, draw int) {
 			viol("C07:shared-secret:"+c.k.name, "what", "X25519 half of the KEM shared secret", "got", ssBB, "want_first_32", ssA)
 		}
 		lib.Count("hybrid-x25519-half-checked")
+		// the Kyber768 half: enc[32:] and the second half of the shared secret
+		// are Kyber768's deterministic encapsulation to the second part of
+		// the public key, from the SECOND 32 octets of the randomness
+		ks := kyber768.Scheme()
+		if pkB, e := ks.UnmarshalBinaryPublicKey(lib.Clone(R.pkb[32:])); e == nil && len(ikmE) >= 64 {
+			ctB, ssB, eB := ks.EncapsulateDeterministically(pkB, lib.Clone(ikmE[32:64]))
+			_, ssH, eH := scheme.EncapsulateDeterministically(R.pk, ikmE)
+			lib.Count("hybrid-kyber-half-checked")
+			if eB != nil || eH != nil || !lib.Eq(ctB, enc[32:]) || len(ssH) != 64 || !lib.Eq(ssH[32:], ssB) {
+				viol("C07:enc:"+c.k.name, "what", "Kyber768 half (kyber768.EncapsulateDeterministically(pk[32:], randomness[32:64]))",
+					"enc_half_same", lib.Eq(ctB, enc[32:]), "secret_half_same", len(ssH) == 64 && lib.Eq(ssH[32:], ssB))
+			}
+		}
 	}
 	okS := compareContext(monSuites, c, 0, sealer, expS, wit)
 
